@@ -76,7 +76,7 @@ CLAIMED = {
    design='§7 C07'),
  'C11': dict(
    text='Theorems: split_view_invariant (the splitter sees tokens only through a view invariant under whitespace and keyword-case re-spelling); respell_group — all 25 grouping passes commute with every admissible re-spelling of the leaves (keyword letter case, whitespace inside multi-word keywords, values of whitespace tokens); whitespace_count_invariant — on the decidable domain InDomain (no comment token, no := token, WsDomain) two statements with the same non-whitespace tokens and whitespace in the same gaps group to trees with identical skeletons (same classes, nesting and significant leaves), and grouping with all whitespace deleted gives that skeleton (group_skel_canonical). Outside the domain the statement is false for the library (KF-C11-1/2, witnessed on the real code). Oracle (metamorphic, real code): each grammar script re-spelled (whitespace runs, inner whitespace of multi-word keywords, keyword case): statement count, get_type and tree shape compared; DOMAIN(view), DOMAIN(wsdomain), S-TREE on both spellings.',
-   note='The lexical step is a theorem for re-spellings that keep the number of whitespace characters (respelled_text_lexes_equivalently, under the decidable wsRespellable, DOMAIN(wsrespell)); re-spellings that change the length of a whitespace run are covered by the metamorphic oracle only (stated as a conjecture, not a theorem). Three genuine defects repaired (770a1b4, c10144b, 3d621f2); known findings KF-C11-1 (comment runs), KF-C11-2 (:= stale indexes).',
+   note='The lexical step is a theorem for re-spellings that keep the number of whitespace characters (respelled_text_lexes_equivalently, under the decidable wsRespellable, DOMAIN(wsrespell)); whitespace runs of ANY length are a theorem too under the decidable wsRespellableAny (respelled_runs_of_any_length_lex_equivalently, DOMAIN(wsrespellany); squeezed-form simulation, 42 of 52 rules in the run class decided by the kernel); texts outside both domains: metamorphic oracle. Three genuine defects repaired (770a1b4, c10144b, 3d621f2); known findings KF-C11-1 (comment runs), KF-C11-2 (:= stale indexes).',
    technique='Lean 4 theorems (view abstraction of the splitter; leaf-wise re-spelling commutation lifted through all passes) + metamorphic exploration on the real code + differential correspondence',   design='§7 C11'),
  'C12': dict(
    text='Theorems: accessors on every Identifier of canonical shape return the written parts with quotes removed; respell_group_names — grouping commutes with re-spelling the VALUES of Name/String.Symbol leaves, keyword case and whitespace values (all 25 passes); accessors_of_checked_skeleton — from one skeleton whose check evaluates to true to every admissible spelling; the table of 19 contexts x 30 reference forms (570 statement skeletons: select/FROM lists up to 3 items, JOIN, UPDATE, INSERT, subqueries; plain/quoted parts; AS/implicit alias) is decided by the kernel through the whole model pipeline (thorough tier, SqlPropsSlow.C12Table: identifier_accessors_in_context) and evaluated by the compiled driver in the quick tier. DOMAIN(skeleton): every skeleton and random admissible renamings of it on the real code; oracle with planted references; S-TREE/S-ACC.',
